@@ -43,6 +43,8 @@ var c37Assumptions = []string{
 	"the second branch and the independent database receive exactly the same statement sequence (including the parent table of the foreign key): tag collision resolution against tables that exist on one side only is by design and not asserted",
 	"FULLTEXT, SPATIAL and VECTOR indexes are not generated",
 	"tables hold no rows (tags and serialization do not depend on data)",
+	"while finding " + c37FindVirtualAdd + " is listed open, CHECK and table COMMENT fragments are not expected in SHOW CREATE TABLE once the table has a VIRTUAL generated column (skipped expectations are counted as excluded_known); the pinned sub-test reports it",
+	"because the in-process schema is itself read from storage, loss of an attribute is checked against the written DDL: right after a statement SHOW CREATE TABLE must contain its ON UPDATE / GENERATED / DEFAULT (function) / COLLATE / AUTO_INCREMENT / COMMENT (texts without quotes or backslashes) / index, check and foreign key fragments (case-insensitive substring match)",
 	"columns named by a CHECK constraint or by a generated column's expression are never renamed, retyped or dropped (dolt accepts e.g. CHANGE COLUMN of a column a CHECK refers to and leaves a table that SHOW CREATE TABLE cannot render; a DDL validation gap outside this property)",
 }
 
@@ -254,6 +256,7 @@ type c37Model struct {
 	// feature flags of what was generated and accepted
 	ExprDefault bool
 	NonDefColl  bool
+	HasVirtual  bool
 	// Ref: columns named by a CHECK or by a generated column's expression. They are never
 	// renamed, retyped or dropped (dolt accepts e.g. CHANGE COLUMN of a column a CHECK refers to
 	// and leaves the table unusable; that is outside this property).
@@ -299,6 +302,16 @@ type c37Spec struct {
 	Coll bool
 	// RefCol is the column a generated column's expression reads ("" = none)
 	RefCol string
+	// Expect: lower-case fragments SHOW CREATE TABLE must contain once the column exists (the
+	// in-process round trip starts from an already deserialized schema, so an attribute lost on the
+	// way to or from storage is only visible against the DDL that was written)
+	Expect []string
+}
+
+// c37SafeComment reports whether a comment text is rendered verbatim by SHOW CREATE TABLE
+// (no quote or backslash escaping involved).
+func c37SafeComment(c string) bool {
+	return c != "" && !strings.ContainsAny(c, "'\"\\")
 }
 
 // c37GenColSpec draws a column definition. m supplies existing columns for generated columns.
@@ -416,12 +429,21 @@ func c37GenColSpec(rt *rapid.T, m *c37Model, class string, allowGen bool) c37Spe
 		if expr != "" {
 			sp.Col.Gen = true
 			sp.Expr = true
-			opts += " GENERATED ALWAYS AS " + expr + " " + rapid.SampledFrom([]string{"VIRTUAL", "STORED"}).Draw(rt, "genkind")
+			gk := rapid.SampledFrom([]string{"VIRTUAL", "STORED"}).Draw(rt, "genkind")
+			opts += " GENERATED ALWAYS AS " + expr + " " + gk
+			sp.Expect = append(sp.Expect, "generated always as")
+			if gk == "STORED" {
+				sp.Expect = append(sp.Expect, "stored") // VIRTUAL is the default and is not printed
+			}
 			if rapid.IntRange(0, 3).Draw(rt, "gennotnull") == 0 {
 				opts += " NOT NULL"
 			}
 			if rapid.IntRange(0, 2).Draw(rt, "hascomment") == 0 {
-				opts += " COMMENT " + c37Quote(rapid.SampledFrom(c37Comments).Draw(rt, "comment"))
+				cm := rapid.SampledFrom(c37Comments).Draw(rt, "comment")
+				opts += " COMMENT " + c37Quote(cm)
+				if c37SafeComment(cm) {
+					sp.Expect = append(sp.Expect, "comment '"+strings.ToLower(cm)+"'")
+				}
 			}
 			sp.SQL = typ + opts
 			return sp
@@ -437,8 +459,14 @@ func c37GenColSpec(rt *rapid.T, m *c37Model, class string, allowGen bool) c37Spe
 		}
 	case 2, 3:
 		if len(defExprs) > 0 {
-			opts += " DEFAULT " + rapid.SampledFrom(defExprs).Draw(rt, "defaultexpr")
+			de := rapid.SampledFrom(defExprs).Draw(rt, "defaultexpr")
+			opts += " DEFAULT " + de
 			sp.Expr = true
+			for _, fn := range []string{"upper(", "concat(", "abs(", "unhex(", "json_object(", "repeat("} {
+				if strings.Contains(strings.ToLower(de), fn) {
+					sp.Expect = append(sp.Expect, "default ("+fn)
+				}
+			}
 		}
 	case 4:
 		if class == "datetime" || class == "timestamp" {
@@ -448,13 +476,24 @@ func c37GenColSpec(rt *rapid.T, m *c37Model, class string, allowGen bool) c37Spe
 			}
 			opts += " DEFAULT " + cts
 			sp.Expr = true
+			sp.Expect = append(sp.Expect, "default current_timestamp")
 			if rapid.Bool().Draw(rt, "onupdate") {
 				opts += " ON UPDATE " + cts
+				sp.Expect = append(sp.Expect, "on update current_timestamp")
 			}
 		}
 	}
 	if rapid.IntRange(0, 2).Draw(rt, "hascomment") == 0 {
-		opts += " COMMENT " + c37Quote(rapid.SampledFrom(c37Comments).Draw(rt, "comment"))
+		cm := rapid.SampledFrom(c37Comments).Draw(rt, "comment")
+		opts += " COMMENT " + c37Quote(cm)
+		if c37SafeComment(cm) {
+			sp.Expect = append(sp.Expect, "comment '"+strings.ToLower(cm)+"'")
+		}
+	}
+	if sp.Coll {
+		if i := strings.Index(typ, "COLLATE "); i >= 0 {
+			sp.Expect = append(sp.Expect, "collate "+strings.ToLower(strings.Fields(typ[i+8:])[0]))
+		}
 	}
 	sp.SQL = typ + opts
 	return sp
@@ -529,15 +568,32 @@ func c37GenCheckDef(rt *rapid.T, m *c37Model) (name, def string, refs []string, 
 	return name, def, refs, true
 }
 
+func c37IndexExpect(name, def string) []string {
+	e := []string{"key `" + name + "`"}
+	if strings.HasPrefix(def, "UNIQUE") {
+		e = []string{"unique key `" + name + "`"}
+	}
+	return e
+}
+
+func c37CheckExpect(name, def string) []string {
+	e := []string{"constraint `" + name + "` check"}
+	if strings.Contains(def, "NOT ENFORCED") {
+		e = append(e, "not enforced")
+	}
+	return e
+}
+
 // c37Stmt is one DDL statement plus the model update to apply when dolt accepts it.
 type c37Stmt struct {
-	SQL   string
-	Apply func(m *c37Model)
-	Alter bool
+	SQL    string
+	Apply  func(m *c37Model)
+	Alter  bool
+	Expect []string // lower-case fragments SHOW CREATE TABLE must contain right after this statement
 }
 
 func c37GenCreate(rt *rapid.T, m *c37Model) c37Stmt {
-	var defs, refs []string
+	var defs, refs, expect []string
 	var cols []c37Col
 	tmp := &c37Model{}
 	expr, coll := false, false
@@ -566,6 +622,10 @@ func c37GenCreate(rt *rapid.T, m *c37Model) c37Stmt {
 			}
 		}
 		defs = append(defs, fmt.Sprintf("`%s` %s", sp.Col.Name, sql))
+		expect = append(expect, sp.Expect...)
+		if strings.Contains(sql, "AUTO_INCREMENT") {
+			expect = append(expect, "auto_increment")
+		}
 		cols = append(cols, sp.Col)
 		if sp.RefCol != "" {
 			refs = append(refs, sp.RefCol)
@@ -589,6 +649,7 @@ func c37GenCreate(rt *rapid.T, m *c37Model) c37Stmt {
 		if n, d, ok := c37GenIndexDef(rt, tmp); ok {
 			defs = append(defs, d)
 			idx = append(idx, n)
+			expect = append(expect, c37IndexExpect(n, d)...)
 		}
 	}
 	nchk := rapid.IntRange(0, 2).Draw(rt, "nchk")
@@ -597,6 +658,7 @@ func c37GenCreate(rt *rapid.T, m *c37Model) c37Stmt {
 			defs = append(defs, d)
 			chks = append(chks, n)
 			refs = append(refs, r...)
+			expect = append(expect, c37CheckExpect(n, d)...)
 		}
 	}
 	// foreign key to the parent table p(id INT PRIMARY KEY)
@@ -605,21 +667,28 @@ func c37GenCreate(rt *rapid.T, m *c37Model) c37Stmt {
 		cols = append(cols, c)
 		refs = append(refs, c.Name)
 		defs = append(defs, "`fkc` INT")
+		expect = append(expect, "foreign key (`fkc`) references `p` (`id`)")
 		defs = append(defs, fmt.Sprintf("CONSTRAINT `fk_p` FOREIGN KEY (`%s`) REFERENCES `p` (`id`)%s", c.Name,
 			rapid.SampledFrom([]string{"", " ON DELETE CASCADE", " ON DELETE SET NULL ON UPDATE CASCADE", " ON UPDATE RESTRICT"}).Draw(rt, "fk.action")))
 	}
 	opts := ""
 	if rapid.IntRange(0, 2).Draw(rt, "tbl.hascomment") == 0 {
-		opts += " COMMENT=" + c37Quote(rapid.SampledFrom(c37Comments).Draw(rt, "tbl.comment"))
+		cm := rapid.SampledFrom(c37Comments).Draw(rt, "tbl.comment")
+		opts += " COMMENT=" + c37Quote(cm)
+		if c37SafeComment(cm) {
+			expect = append(expect, "comment='"+strings.ToLower(cm)+"'")
+		}
 	}
 	if rapid.IntRange(0, 2).Draw(rt, "tbl.hascoll") == 0 {
 		c := rapid.SampledFrom(c37Collations).Draw(rt, "tbl.collation")
 		opts += " COLLATE=" + c
 		coll = coll || c != "utf8mb4_0900_bin"
+		expect = append(expect, "collate="+c)
 	}
 	seq := tmp.seq
-	return c37Stmt{SQL: fmt.Sprintf("CREATE TABLE `%s` (%s)%s", m.Table, strings.Join(defs, ", "), opts), Apply: func(m *c37Model) {
+	return c37Stmt{Expect: expect, SQL: fmt.Sprintf("CREATE TABLE `%s` (%s)%s", m.Table, strings.Join(defs, ", "), opts), Apply: func(m *c37Model) {
 		m.Cols, m.Idx, m.Checks, m.seq = cols, idx, chks, seq
+		m.HasVirtual = strings.Contains(strings.Join(defs, ","), " VIRTUAL")
 		m.ExprDefault, m.NonDefColl = expr, coll
 		for _, r := range refs {
 			m.ref(r)
@@ -663,9 +732,10 @@ func c37GenAlter(rt *rapid.T, m *c37Model) c37Stmt {
 				pos = " AFTER `" + pick(m.Cols, "alter.after").Name + "`"
 			}
 			col, posCopy := sp.Col, pos
-			return c37Stmt{Alter: true, SQL: fmt.Sprintf("ALTER TABLE %s ADD COLUMN `%s` %s%s", t, col.Name, sp.SQL, pos), Apply: func(m *c37Model) {
+			return c37Stmt{Alter: true, Expect: sp.Expect, SQL: fmt.Sprintf("ALTER TABLE %s ADD COLUMN `%s` %s%s", t, col.Name, sp.SQL, pos), Apply: func(m *c37Model) {
 				_ = posCopy
 				m.Cols = append(m.Cols, col)
+				m.HasVirtual = m.HasVirtual || strings.Contains(sp.SQL, " VIRTUAL")
 				if sp.RefCol != "" {
 					m.ref(sp.RefCol)
 				}
@@ -724,7 +794,7 @@ func c37GenAlter(rt *rapid.T, m *c37Model) c37Stmt {
 			}}
 		case "addidx":
 			if n, d, ok := c37GenIndexDef(rt, m); ok {
-				return c37Stmt{Alter: true, SQL: fmt.Sprintf("ALTER TABLE %s ADD %s", t, d), Apply: func(m *c37Model) { m.Idx = append(m.Idx, n) }}
+				return c37Stmt{Alter: true, Expect: c37IndexExpect(n, d), SQL: fmt.Sprintf("ALTER TABLE %s ADD %s", t, d), Apply: func(m *c37Model) { m.Idx = append(m.Idx, n) }}
 			}
 		case "dropidx":
 			if len(m.Idx) > 0 {
@@ -753,7 +823,7 @@ func c37GenAlter(rt *rapid.T, m *c37Model) c37Stmt {
 			}
 		case "addchk":
 			if n, d, r, ok := c37GenCheckDef(rt, m); ok {
-				return c37Stmt{Alter: true, SQL: fmt.Sprintf("ALTER TABLE %s ADD %s", t, d), Apply: func(m *c37Model) {
+				return c37Stmt{Alter: true, Expect: c37CheckExpect(n, d), SQL: fmt.Sprintf("ALTER TABLE %s ADD %s", t, d), Apply: func(m *c37Model) {
 					m.Checks = append(m.Checks, n)
 					for _, x := range r {
 						m.ref(x)
@@ -819,6 +889,29 @@ func c37ErrClass(err error) string {
 	return strings.TrimSpace(b.String())
 }
 
+// c37FindVirtualAdd: a table that has a VIRTUAL generated column (from CREATE TABLE or ADD COLUMN)
+// neither shows nor enforces its CHECK constraints and does not show its table COMMENT.
+const c37FindVirtualAdd = "C37-virtual-column-hides-checks-and-comment"
+
+// c37NoVirtualAdd is set while that finding is listed open; c37Excluded counts skipped expectations.
+var c37NoVirtualAdd bool
+var c37Excluded int
+
+func c37PinnedVirtualAdd(t *testing.T, srv *vsql.Server, admin *vsql.Session) string {
+	db := srv.NewDBName()
+	admin.MustExec(t, "CREATE DATABASE "+db)
+	defer admin.Exec("DROP DATABASE " + db)
+	s := srv.Session(t, "pinned", db)
+	defer s.Close()
+	s.MustExec(t, "CREATE TABLE t2 (c0 INT PRIMARY KEY, c1 INT, CONSTRAINT chk1 CHECK (c1 < 5), a4 INT GENERATED ALWAYS AS (c0 + 1) VIRTUAL) COMMENT='plain'")
+	show := c37ShowCreate(t, s, "t2")
+	if !strings.Contains(show, "chk1") || !strings.Contains(show, "COMMENT='plain'") {
+		err := s.Exec("INSERT INTO t2 (c0, c1) VALUES (1, 100)")
+		return fmt.Sprintf("CREATE TABLE t2 (c0 INT PRIMARY KEY, c1 INT, CONSTRAINT chk1 CHECK (c1 < 5), a4 INT GENERATED ALWAYS AS (c0 + 1) VIRTUAL) COMMENT='plain': SHOW CREATE TABLE lists neither chk1 nor the comment, and INSERT (1,100) returns %v: %s", err, strings.ReplaceAll(show, "\n", " "))
+	}
+	return ""
+}
+
 // c37CurProg is the program of the running case (for messages only).
 var c37CurProg string
 
@@ -847,6 +940,17 @@ func TestVerif_C37(t *testing.T) {
 	defer func() { srv.Stop() }()
 	admin := srv.Session(t, "admin", "")
 	defer func() { admin.Close() }()
+	c37NoVirtualAdd = vh.OpenFinding("C37", c37FindVirtualAdd)
+	t.Run("pinned_virtual_column_hides_checks_and_comment", func(t *testing.T) {
+		if msg := c37PinnedVirtualAdd(t, srv, admin); msg != "" {
+			if vh.OpenFinding("C37", c37FindVirtualAdd) {
+				vh.ReportKnown("C37", c37FindVirtualAdd, msg)
+				return
+			}
+			vh.NoteViolation(t.Name(), "", `{"sql":["CREATE TABLE t2 (c0 INT PRIMARY KEY, c1 INT, CONSTRAINT chk1 CHECK (c1 < 5), a4 INT GENERATED ALWAYS AS (c0 + 1) VIRTUAL) COMMENT='plain'","SHOW CREATE TABLE t2","INSERT INTO t2 (c0, c1) VALUES (1, 100)"],"observed":"`+strings.ReplaceAll(msg, `"`, `'`)+`"}`)
+			t.Errorf("%s", msg)
+		}
+	})
 	remoteSeq := 0
 	maxAlters := vh.N(6, 10)
 	vh.Check(t, "ddl", 60, 250, func(rt *rapid.T) {
@@ -898,6 +1002,23 @@ func TestVerif_C37(t *testing.T) {
 		accepted = append(accepted, create.SQL)
 		script = append(script, create.SQL)
 		checkRT("CREATE")
+		checkExpect := func(st c37Stmt) {
+			if len(st.Expect) == 0 {
+				return
+			}
+			c37CurProg = strings.Join(script, ";\n")
+			show := strings.ToLower(c37ShowCreate(rt, s1, m.Table))
+			for _, e := range st.Expect {
+				if m.HasVirtual && c37NoVirtualAdd && (strings.HasPrefix(e, "constraint `") || e == "not enforced" || strings.HasPrefix(e, "comment='")) {
+					c37Excluded++
+					continue
+				}
+				if !strings.Contains(show, e) {
+					rt.Fatalf("C37 (1): SHOW CREATE TABLE after %s lacks %q (an attribute of the statement was lost on the way to or from storage):\n%s\n--- program ---\n%s", qClip(st.SQL, 200), e, show, c37CurProg)
+				}
+			}
+		}
+		checkExpect(create)
 		nTry := rapid.IntRange(0, maxAlters).Draw(rt, "nalters")
 		for i := 0; i < nTry; i++ {
 			st := c37GenAlter(rt, m)
@@ -911,6 +1032,7 @@ func TestVerif_C37(t *testing.T) {
 			script = append(script, st.SQL)
 			nAlter++
 			checkRT(st.SQL)
+			checkExpect(st)
 		}
 		prog := strings.Join(script, ";\n")
 		c37CurProg = prog
@@ -1049,6 +1171,11 @@ func TestVerif_C37(t *testing.T) {
 			classes = append(classes, "has_fk")
 		}
 		desc := strings.Join(accepted, "; ")
+		if c37Excluded > 0 {
+			recRT.Excluded(c37Excluded)
+			recRT.Class("known:"+c37FindVirtualAdd, c37Excluded)
+			c37Excluded = 0
+		}
 		recRT.Case(desc, m.ExprDefault && m.NonDefColl && hasIdx, classes...)
 		recTags.Case(desc, nAlter >= 2, classes...)
 	})
